@@ -55,6 +55,8 @@ pub enum RD {
     T(u32),
     /// SRV with this target
     V(usize),
+    /// RRSIG covering this type (dummy signature)
+    R(u16),
 }
 
 #[derive(Clone, Debug, PartialEq, Eq, Hash, PartialOrd, Ord)]
@@ -154,6 +156,7 @@ fn parse_rec(t: &str) -> Option<Rec> {
         "S" => RD::S(v.parse().ok()?),
         "T" => RD::T(v.parse().ok()?),
         "V" => RD::V(v.parse().ok()?),
+        "R" => RD::R(v.parse().ok()?),
         _ => return None,
     };
     Some(Rec { name, ttl, data })
@@ -168,6 +171,7 @@ fn rec_tok(r: &Rec) -> String {
         RD::S(x) => format!("S{x}"),
         RD::T(x) => format!("T{x}"),
         RD::V(x) => format!("V{x}"),
+        RD::R(x) => format!("R{x}"),
     };
     format!("{}:{}:{}", r.name, r.ttl, d)
 }
@@ -337,6 +341,20 @@ impl Case {
             RD::S(m) => RData::SOA(SOA::new(name.clone(), name.clone(), 1, 1, 1, 1, *m)),
             RD::T(t) => RData::TXT(TXT::new(vec![t.to_string()])),
             RD::V(x) => RData::SRV(hickory_proto::rr::rdata::SRV::new(1, 1, 53, self.names[*x].clone())),
+            RD::R(covered) => {
+                use hickory_proto::dnssec::rdata::{sig::SigInput, DNSSECRData, RRSIG};
+                let input = SigInput {
+                    type_covered: RecordType::from(*covered),
+                    algorithm: hickory_proto::dnssec::Algorithm::ED25519,
+                    num_labels: name.num_labels(),
+                    original_ttl: r.ttl,
+                    sig_expiration: hickory_proto::rr::SerialNumber::from(2_000_000_000u32),
+                    sig_inception: hickory_proto::rr::SerialNumber::from(1_000_000_000u32),
+                    key_tag: 7,
+                    signer_name: name.clone(),
+                };
+                RData::DNSSEC(DNSSECRData::RRSIG(RRSIG::from_sig(input, vec![1, 2, 3, 4])))
+            }
         };
         Record::from_rdata(name, r.ttl, data)
     }
@@ -369,6 +387,7 @@ fn canon_record(r: &Record) -> String {
         RData::CNAME(n) => format!("C{}", name_tok(&n.0)),
         RData::SOA(s) => format!("S{}", s.minimum),
         RData::SRV(v) => format!("V{}", name_tok(&v.target)),
+        RData::DNSSEC(hickory_proto::dnssec::rdata::DNSSECRData::RRSIG(sig)) => format!("R{}", u16::from(sig.input().type_covered)),
         RData::TXT(t) => format!(
             "T{}",
             t.txt_data.first().map(|s| String::from_utf8_lossy(s).to_string()).unwrap_or_default()
@@ -387,6 +406,7 @@ fn canon_rec(c: &Case, r: &Rec) -> String {
         RD::S(x) => format!("S{x}"),
         RD::T(x) => format!("T{x}"),
         RD::V(x) => format!("V{}", name_tok(&c.names[*x])),
+        RD::R(x) => format!("R{x}"),
     };
     format!("{}/{}", name_tok(&c.names[r.name]), d)
 }
@@ -623,7 +643,7 @@ fn run_case(case: Arc<Case>) -> Result<Vec<QueryOutcome>, String> {
                 log.lock().unwrap().clear();
                 let futs = case.queries[k..k + batch].iter().map(|(n, t)| {
                     let q = Query::new(case.names[*n].clone(), RecordType::from(*t));
-                    recursor.resolve(q, Instant::now(), false)
+                    recursor.resolve(q, Instant::now(), case.security_aware())
                 });
                 let res = tokio::time::timeout(Duration::from_secs(60), futures_util::future::join_all(futs)).await;
                 let events = log.lock().unwrap().clone();
@@ -641,7 +661,7 @@ fn run_case(case: Arc<Case>) -> Result<Vec<QueryOutcome>, String> {
             let (n, t) = &case.queries[k];
             let q = Query::new(case.names[*n].clone(), RecordType::from(*t));
             log.lock().unwrap().clear();
-            let res = tokio::time::timeout(Duration::from_secs(60), recursor.resolve(q, Instant::now(), false)).await;
+            let res = tokio::time::timeout(Duration::from_secs(60), recursor.resolve(q, Instant::now(), case.security_aware())).await;
             let events = log.lock().unwrap().clone();
             let Ok(res) = res else {
                 return Err("hang".to_string());
@@ -1438,6 +1458,7 @@ pub mod gen {
                 RD::S(_) => 6,
                 RD::T(_) => 16,
                 RD::V(_) => 33,
+                RD::R(_) => 46,
             }
         }
 
@@ -1880,6 +1901,20 @@ pub mod gen {
             let q1 = w.intern("www.example.com.");
             let roots = w.group_ips[0].clone();
             out.push(("cached-address-used-as-glue", w.case(roots, vec![(q0, 1), (q1, 1)], 24, 24)));
+            // the same with address records that live shorter than the NS records (pool TTL = the smaller one)
+            let mut w = base(false);
+            w.glue_ttl = 300;
+            let gh = w.std_group(1);
+            w.zone("hoster.net.", gh, &["ns.hoster.net."], true);
+            let ge = w.std_group(1);
+            w.zone("example.com.", ge, &["dns.hoster.net."], false);
+            let r = w.a("www.example.com.", v4(44, 1, 1, 1));
+            w.add_auto(r);
+            w.finish();
+            let q0 = w.intern("dns.hoster.net.");
+            let q1 = w.intern("www.example.com.");
+            let roots = w.group_ips[0].clone();
+            out.push(("cached-address-shorter-ttl-used-as-glue", w.case(roots, vec![(q0, 1), (q1, 1), (q1, 1)], 24, 24)));
         }
         // 12d. wildcard owner name, mixed-case query, DS query (parent side), ANY and CNAME queries
         {
@@ -2081,6 +2116,49 @@ pub mod gen {
                 }
             }
             out.push(("answer-in-additional-only-foreign-authority", c));
+        }
+        // 17. RRSIGs along a CNAME chain across two zones: carried along for a client with the DO bit (every fourth
+        //     internet, see Case::security_aware — the name table is padded to get there), stripped without it
+        {
+            let mut w = base(false);
+            let g1 = w.std_group(1);
+            w.zone("one.com.", g1, &["ns.one.com."], true);
+            let g2 = w.std_group(1);
+            w.zone("two.com.", g2, &["ns.two.com."], true);
+            let r = w.cname("a.one.com.", "b.two.com.");
+            w.add_auto(r);
+            let r = w.a("b.two.com.", v4(44, 1, 1, 1));
+            w.add_auto(r);
+            w.finish();
+            let q1 = w.intern("a.one.com.");
+            let roots = w.group_ips[0].clone();
+            let mut c = w.case(roots, vec![(q1, 1), (q1, 1), (q1, 46)], 24, 24);
+            for e in c.table.values_mut() {
+                if e.rcode == 0 && !e.ans.is_empty() {
+                    let first = e.ans[0].clone();
+                    let covered = match first.data {
+                        RD::C(_) => 5,
+                        RD::A(_) => 1,
+                        RD::N(_) => 2,
+                        _ => 6,
+                    };
+                    e.ans.push(Rec { name: first.name, ttl: 3600, data: RD::R(covered) });
+                    e.ans.push(Rec { name: first.name, ttl: 3600, data: RD::R(16) });
+                }
+            }
+            let mut with_do = c.clone();
+            let mut k = 0;
+            while !with_do.security_aware() {
+                with_do.names.push(Name::from_ascii(format!("pad{k}.invalid-pad.")).unwrap());
+                k += 1;
+            }
+            out.push(("rrsigs-along-cname-chain-do-bit", with_do));
+            let mut k = 0;
+            while c.security_aware() {
+                c.names.push(Name::from_ascii(format!("pad{k}.invalid-pad.")).unwrap());
+                k += 1;
+            }
+            out.push(("rrsigs-along-cname-chain-stripped", c));
         }
         // 13b. negative answer carrying an in-bailiwick address the answer filter denies
         {
@@ -2382,6 +2460,31 @@ pub mod gen {
         }
         if r.chance(1, 8) {
             c.deny_ans.push(net32(evil_ips[0]));
+        }
+        // some answers are accompanied by RRSIGs covering their records (never validated here: what matters is which
+        // of them CNAME chasing carries along and whether they are stripped for a client without the DO bit)
+        if r.chance(1, 3) {
+            let keys: Vec<(usize, usize, u16)> = c.table.keys().cloned().collect();
+            for k in keys {
+                let e = c.table.get_mut(&k).unwrap();
+                if e.rcode == 0 && !e.ans.is_empty() && r.chance(1, 2) {
+                    let first = e.ans[0].clone();
+                    let covered = match first.data {
+                        RD::A(_) => 1,
+                        RD::Q(_) => 28,
+                        RD::N(_) => 2,
+                        RD::C(_) => 5,
+                        RD::S(_) => 6,
+                        RD::T(_) => 16,
+                        RD::V(_) => 33,
+                        RD::R(_) => 46,
+                    };
+                    e.ans.push(Rec { name: first.name, ttl: first.ttl, data: RD::R(covered) });
+                    if r.chance(1, 4) {
+                        e.ans.push(Rec { name: first.name, ttl: first.ttl, data: RD::R(*r.pick(&[1u16, 5, 16, 28])) });
+                    }
+                }
+            }
         }
         // some answers come truncated over UDP (the pool repeats the query over TCP and gets the full answer)
         if r.chance(1, 4) {
